@@ -231,5 +231,18 @@ def main(argv=None) -> int:
     return rc
 
 
+def _main_guarded() -> int:
+    try:
+        return main()
+    except SystemExit:
+        raise
+    except BaseException:  # a problem of the harness is never a verdict
+        import traceback
+
+        traceback.print_exc()
+        print("HARNESS-ERROR exception in the runner; no verdict")
+        return 2
+
+
 if __name__ == "__main__":
-    sys.exit(main())
+    sys.exit(_main_guarded())
